@@ -1232,6 +1232,9 @@ class Models:
             if m.group(2) == "MAX":
                 return I((1 << (w - 1)) - 1 if sg else (1 << w) - 1, m.group(1))
             return I(-(1 << (w - 1)) if sg else 0, m.group(1))
+        m = re.fullmatch(r"(?:core::num::<impl )?(\w+)(?:>)?::BITS", t)
+        if m and m.group(1) in INT_TYPES:
+            return I(INT_TYPES[m.group(1)][0], "u32")
         m = re.fullmatch(r"ZeroSized: (.*)", t)
         if m:
             ty = m.group(1)
